@@ -136,8 +136,10 @@ def main(argv=None):
                     samples.append(s)
             slow.append((res.get("wall", 0), res["task"]))
             if a.first and violations:
-                a.no_evidence = True
-                break
+                known_now = findings.load(os.path.join(HERE, "KNOWN_FINDINGS.txt"), prop)
+                if findings.split(violations, known_now)[0]:  # a violation that is not a listed finding
+                    a.no_evidence = True
+                    break
     wall = time.time() - t0
 
     if herr:
